@@ -114,7 +114,9 @@ def run(ctx):
     try:
         init_in, fixed_in = list(i), [False, False, False]
         rec2 = {}
-        cfg = Obj("config", {"poi_index": Poly.const(1)})
+        # the model has suggestions of its own (another fixed mask, other start values): the CALLER's arguments win
+        cfg = Obj("config", {"poi_index": Poly.const(1), "suggested_init": PyFunc(lambda a, k: [Poly.atom("m0"), Poly.atom("m1"), Poly.atom("m2")], "suggested_init"),
+                             "suggested_fixed": PyFunc(lambda a, k: [True, False, True], "suggested_fixed"), "suggested_bounds": PyFunc(lambda a, k: Obj("model_bounds"), "suggested_bounds")})
         env = {"poi_val": Poly.atom("POI"), "data": Obj("data"), "pdf": Obj("pdf", {"config": cfg}), "init_pars": init_in, "par_bounds": Obj("bounds"), "fixed_params": fixed_in, "kwargs": {}}
         it = Interp(env, {}, {}, externals={"fit": lambda a, k: (rec2.__setitem__("fit", (a, k)) or Poly.atom("FITRESULT"))})
         out = it.run(A.strip_docstring(fpf.node.body))
